@@ -436,6 +436,7 @@ func (b *GRPCBroker) AcceptAndServe(id uint32, newGRPCServer func([]grpc.ServerO
 
 // Close closes the stream and all servers.
 func (b *GRPCBroker) Close() error {
+	verifhook.Point("grpc.broker.close", b, 0, 0)
 	b.streamer.Close()
 	b.o.Do(func() {
 		close(b.doneCh)
